@@ -856,6 +856,9 @@ class VSocket:
 
     def shutdown(self, how):
         self._check_open()
+        # as the kernel does: a socket that is not (or no longer) connected cannot be shut down
+        if self.state != "connected" or getattr(self, "was_reset", False):
+            raise _oserr(_errno.ENOTCONN)
 
     def close(self):
         if self.closed:
@@ -945,6 +948,7 @@ class RemoteEnd:
         self.net.log.append((self.net.k.now, "peer-fin", self.cid, None))
 
     def reset(self, err=_errno.ECONNRESET):
+        self.sock.was_reset = True
         self.sock.rx_err = err
         self.sock.tx_hard_err = _errno.EPIPE
         self.sock.rx_eof = True
